@@ -571,6 +571,7 @@ class MemorizedFunc(Logger):
             elif id(self.func.__code__) != self._func_code_id:
                 # Be robust to dynamic reassignments of self.func.__code__
                 self._func_code_info = None
+                self._func_code_id = id(self.func.__code__)
 
         if self._func_code_info is None:
             # Cache the source code of self.func . Provided that get_func_code
